@@ -115,4 +115,21 @@ PROPS = {
         "level_note": "Partial: totality ('never panics') is not a theorem — refuted for the known-finding class K1 (c01_no_panic_refuted) and outside it only observed (a panic outside K1 is reported as a violation). Trusted: Coq kernel + vm_compute; hand model tied by differential testing; crawdad at list level; UTF-8 encoder not modelled.",
         "technique": "machine-checked proof in Coq (lattice-wide node invariant by induction over the scan loop + Viterbi path structure) + checked model/code correspondence",
     },
+    "C03": {
+        "theorems": ["c03_char_info", "c03_groupable_is_run", "c03_run_maximal", "c03_unknown_words", "c03_lexicon_prefixes",
+                     "c03_astral_is_entry0", "c03_char_info_refuted", "c03_char_info_outside_known"],
+        "check_targets": ["Check/C03Check.vo"],
+        "case_type": "tokcase",
+        "report_fn": "c03_report",
+        "n": {"quick": 900, "thorough": 20000},
+        "rule": TOK_RULE + "; non-trivial: a sentence whose reported tokens include an unknown word while its lattice also holds lexicon candidates",
+        "trusted_base": TOK_TRUSTED + [
+            "the oracle (Check/C03Check.v) recomputes the candidate multiset of every processed start position from the source rows with the declarative functions of Spec/CandSpec.v (cinfo_spec, run_at, unk_lens_spec, prefix test), using the character infos the implementation reported",
+            "char.def line grammar and inclusive bounds are C10's subject: here ranges arrive already parsed (the generator writes the file, the model receives [start, end+1))",
+        ],
+        "assumptions": ["at most 18 categories (generated: at most 9)", "code points below 2^16 for the char-info clause (beyond: known finding K2)"],
+        "level_text": "Coq theorems: c03_char_info (table lookup = last covering char.def range, DEFAULT otherwise, for code points below 2^16), c03_groupable_is_run + c03_run_maximal (groupable = maximal run of neighbours sharing a category, characterised declaratively), c03_unknown_words (gen_unk_words equals the declarative list of lengths of the property statement x all unk.def entries of the primary category; the early break on the sentence end is dead code), c03_lexicon_prefixes (lookup = exactly the rows whose surface is a non-empty prefix). Known finding K2 (astral code points get the info of U+0000): c03_char_info_refuted with witness + c03_char_info_outside_known. Tied to the code on every run: char infos, groupable, full lattice dumps and tokens of the real tokenizer vs the model, and the oracle recomputes the candidate multiset at every processed start position of the implementation's lattice from the source rows.",
+        "level_note": "Trusted: Coq kernel + vm_compute; crawdad common-prefix search modelled at list level (exercised through the lattice dumps); hand model tied by differential testing; 'every reachable start position' is checked by the oracle on dumps (for ignore_space=false), not stated as one theorem.",
+        "technique": "machine-checked proof in Coq (code-shaped candidate generation = declarative specification) + checked model/code correspondence on lattice dumps",
+    },
 }
